@@ -244,6 +244,71 @@ theorem T17_net_super_spec (conj : α → α) (S B : Net α) {d0 d1 d2 d3 e1 e2 
             fullTen conj S [t0, t1, t2, t3] * fullTen conj B [t1, t2])) :=
   ⟨matmulSuper_part conj S B hS hB, matmulSuper_ten conj S B hS hB t0 t3⟩
 
+/-- a super-channel that is a tensor product `P ⊗ Q` (`link_product("jk,lm->jklm", P, Q)`: pre-
+and post-processing around an open slot) applied to a channel `B` is `P`, then `B`, then `Q`
+(`(P ⊗ Q) @ B = (P @ B) @ Q`), for all dimensions `d₀ → d₁ → d₂ → d₃`. -/
+theorem T17_net_super_sandwich (conj : α → α) (P Q B : Net α) {d0 d1 d2 d3 : Nat}
+    (hP : P.part = [d0, d1]) (hB : B.part = [d1, d2]) (hQ : Q.part = [d2, d3]) (t0 t3 : Nat) :
+    (matmulSuper conj (tensorCh conj P Q) B).ten [t0, t3]
+      = (matmulCh conj (matmulCh conj P B) Q).ten [t0, t3] :=
+  matmulSuper_tensorCh conj P Q B hP hB hQ t0 t3
+
+/-- feeding the state network `QuantumChannel.from_operator(ρ)` (partition `(1, d)`) through a
+channel object by link product is `apply`: `state @ N` is the state network of `N.apply(ρ)`. -/
+theorem T17_net_state_link_is_apply (conj : α → α) (N : Net α) {d0 d1 : Nat}
+    (hN : N.part = [d0, d1]) (ρ : Mat α) {j l : Nat} (hl : l < d1) :
+    (matmulCh conj (stateNet ρ d0) N).ten [0, j * d1 + l]
+      = (stateNet (chanApply conj (fullNet conj N) ρ) d1).ten [0, j * d1 + l] :=
+  matmulCh_stateNet conj N hN ρ hl
+
+/-! ### the predicates `is_causal`, `is_unital`, `is_hermitian` on channel objects -/
+
+/-- what `is_causal()` tests on the channel object of a Kraus family (operators `d_out × d_in`),
+exactly: `d_in · (Σ K†K)ᵀ = tr(Σ K†K) · 1` — the map is trace-preserving UP TO A SCALAR. -/
+theorem T17_net_is_causal_kraus [DecidableEq α] (conj : α → α) (din dout : Nat)
+    (Ks : List (Mat α)) :
+    isCausal conj (krausNet conj din dout Ks) = true ↔
+      ∀ t, t < din * din →
+        din • gramIn conj dout Ks (t / din) (t % din)
+          = (Finset.sum (Finset.range din) fun j => gramIn conj dout Ks j j) * eyeVec din t :=
+  isCausal_krausNet conj din dout Ks
+
+/-- a trace-preserving family gives a causal channel object. -/
+theorem T17_net_is_causal_of_tp [DecidableEq α] (conj : α → α) (din dout : Nat) (Ks : List (Mat α))
+    (htp : ∀ i k, i < din → k < din → gramIn conj dout Ks i k = if i = k then 1 else 0) :
+    isCausal conj (krausNet conj din dout Ks) = true :=
+  isCausal_of_tp conj din dout Ks htp
+
+/-- what `is_unital()` tests: `d_out · Σ K K† = tr(Σ K K†) · 1`. -/
+theorem T17_net_is_unital_kraus [DecidableEq α] (conj : α → α) (din dout : Nat)
+    (Ks : List (Mat α)) :
+    isUnital conj (krausNet conj din dout Ks) = true ↔
+      ∀ t, t < dout * dout →
+        dout • gramOut conj din Ks (t / dout) (t % dout)
+          = eyeVec dout t * (Finset.sum (Finset.range dout) fun o => gramOut conj din Ks o o) :=
+  isUnital_krausNet conj din dout Ks
+
+/-- the Choi matrix (`matrix()`) of the channel object of a Kraus family is
+`M[(i,o),(k,p)] = Σ_K K[o,i] · conj K[p,k]` (input leg major) and Hermitian, so `is_hermitian()`
+holds (conjugation an involutive homomorphism). -/
+theorem T17_net_is_hermitian_kraus [DecidableEq α] {conj : α → α} (hc : ConjHom conj)
+    (hinv : ∀ x, conj (conj x) = x) (din dout : Nat) (Ks : List (Mat α)) :
+    isHermitian conj (krausNet conj din dout Ks) = true
+    ∧ ∀ r c, r < din * dout → c < din * dout →
+        matrix conj (krausNet conj din dout Ks) r c
+          = sumList Ks (fun K => K (r % dout) (r / dout) * conj (K (c % dout) (c / dout))) :=
+  ⟨isHermitian_krausNet hc hinv din dout Ks, fun _ _ hr hc' => matrix_krausNet conj Ks hr hc'⟩
+
+/-- `is_causal` accepts a map that is trace-preserving only up to a factor: twice the identity
+channel on a qubit (Kraus family `{1, 1}`) is "causal" — and a non-isometric `K` is not. -/
+example :
+    let one : Mat Int := fun i j => if i = j then 1 else 0
+    let K : Mat Int := fun i j => if i = 0 ∧ j = 0 then 1 else if i = 0 ∧ j = 1 then 2
+      else if i = 1 ∧ j = 1 then 3 else 0
+    isCausal id (krausNet id 2 2 [one, one]) = true ∧ isCausal id (krausNet id 2 2 [K]) = false
+      ∧ isUnital id (krausNet id 2 2 [one]) = true ∧ isUnital id (krausNet id 2 2 [K]) = false := by
+  decide
+
 /-! ### non-vacuity and concrete instances -/
 
 /-- the identity is a `ConjHom` (real scalars); so is complex conjugation on Gaussian integers
